@@ -653,36 +653,6 @@ fn size_of(s: BodySize) -> String {
 
 /// C02's own words, evaluated on the implementation's wire bytes and call log only.
 pub fn oracle_c02(run: &Run) -> Option<(String, String)> {
-    let (sig, detail) = oracle_c02_raw(run)?;
-    // Known defect family (unchanged code): with an upgrade service configured, decoding an upgrade
-    // request overwrites the codec context without saving it, and the queued `Upgrade` message
-    // carries none. Symptoms are attributed to it only when they are context symptoms and the
-    // client did send an upgrade request behind at least one other request; lost / reordered /
-    // extra responses keep their own signatures.
-    let case = &run.case;
-    let up_at = case.reqs.iter().position(|r| r.upgrade);
-    if let (true, Some(u)) = (case.cfg.up, up_at) {
-        let k: Option<usize> = detail.find("response #").and_then(|p| {
-            detail[p + 10..].chars().take_while(|c| c.is_ascii_digit()).collect::<String>().parse().ok()
-        });
-        const CTX_SYMPTOMS: &[&str] = &[
-            "ctx-version", "ctx-conn", "ctx-head-flag", "bodiless-has-body", "framing-stream", "framing-sized",
-            "body-mismatch", "garbage-on-wire", "missing-response", "close-delimited-keepalive", "failure-looks-complete",
-            "close-delimited-not-last",
-        ];
-        if u > 0 && sig == "upgrade-data" {
-            return Some(("upgrade-ctx-of-earlier-request".into(), detail));
-        }
-        if u > 0 && CTX_SYMPTOMS.contains(&sig.as_str()) {
-            let on_upgrade = k == Some(u);
-            let s2 = if on_upgrade { "upgrade-ctx-of-earlier-request" } else if k.is_none_or(|k| k < u) { "earlier-response-has-upgrade-ctx" } else { sig.as_str() };
-            return Some((s2.to_owned(), format!("[{sig}] {detail}")));
-        }
-    }
-    Some((sig, detail))
-}
-
-fn oracle_c02_raw(run: &Run) -> Option<(String, String)> {
     let ids = match check_dispatch(run) {
         Ok(v) => v,
         Err(e) => return Some(e),
